@@ -314,14 +314,14 @@ class GalleryFunnel(_Base):
     def logd(self, x):
         with np.errstate(all="ignore"):
             x = np.asarray(x, float)
-            s0 = math.exp(x[1] / 2)
-            f = lambda v, s: -0.5 * math.log(2 * math.pi) - math.log(s) - 0.5 * (v / s) ** 2
+            s0 = np.exp(x[1] / 2)
+            f = lambda v, s: -0.5 * math.log(2 * math.pi) - np.log(s) - 0.5 * (v / s) ** 2
             return float(f(x[0], s0) + f(x[1], 3.0))
 
     def grad(self, x):
         with np.errstate(all="ignore"):
             x = np.asarray(x, float)
-            v = math.exp(x[1])
+            v = np.exp(x[1])
             return np.array([-x[0] / v, -0.5 + 0.5 * x[0] ** 2 / v - x[1] / 9.0])
 
     def draw(self, rs, K):
@@ -374,11 +374,11 @@ class GalleryMixture(_Base):
 
     def logd(self, x):
         with np.errstate(all="ignore"):
-            return float(np.log(sum(math.exp(c.logd(x)) for c in self.c)))
+            return float(np.log(sum(np.exp(c.logd(x)) for c in self.c)))
 
     def grad(self, x):
         with np.errstate(all="ignore"):
-            p = np.array([math.exp(c.logd(x)) for c in self.c])
+            p = np.array([np.exp(c.logd(x)) for c in self.c])
             return sum(pi * c.grad(x) for pi, c in zip(p, self.c)) / p.sum()
 
 
